@@ -8,7 +8,7 @@ HERE = os.path.dirname(os.path.dirname(os.path.abspath(__file__)))
 sys.path.insert(0, HERE)
 from vk.registry import REGISTRY  # noqa: E402
 
-rules = json.load(open(os.path.join(HERE, 'vk', 'rules.json')))
+rules = REGISTRY
 props = [json.loads(l) for l in open(os.path.join(HERE, 'properties.jsonl'))]
 baseline = json.load(open('/root/.vp/BASELINE.json'))['cmd'].replace(' --junitxml=<file>', '')
 
